@@ -153,6 +153,38 @@ chk("C10", "model_checking",
     "uninitialised reads that do not change the output under ASLR on/off are invisible; quick restricts observer subsets to sizes 0, 1, all for 9 of the 13 modes",
     "exhaustive mode x observer-subset x environment-deviation enumeration with reference-run byte comparison", "3/C10")
 
+chk("C17", "model_checking",
+    "Stateless bounded-exhaustive exploration on the real binary: statement packs, declaration/preprocessor units, C/C++/ObjC/Java "
+    "skeletons x original layouts (trailing blanks, blank lines holding blanks/tabs, tab-after-space indentation, tabs between tokens, "
+    "several indentation widths) x the full product of the tab family indent_with_tabs {0,1,2} x indent_columns {1,2,3,4,8} x output_tab_size "
+    "{1,2,3,4,8} x align_with_tabs x align_keep_tabs x pp_indent_with_tabs {-1,0,1,2} x indent_cmt_with_tabs (2400 configurations; quick: a "
+    "216-configuration sub-product) with alignment on; the end-of-file family nl_end_of_file x nl_end_of_file_min {0..3} (x nl_max) x nine input "
+    "endings; every single deviation over the indent_/align_/pp_/cmt_/nl_ options read, on three tab bases. Oracle: comments and literals "
+    "masked by the independent lexer; no line ends in a blank; no tab in leading whitespace when the governing option is 0, no space before a "
+    "tab when it is 1 or 2 (directive lines and their continuation lines governed by pp_indent_with_tabs); file end as configured.",
+    "end-of-file clause demands only what the option text fixes (remove: none, force m>0: exactly m, add m>0: at least m, otherwise a final newline is neither invented nor lost)",
+    "bounded-exhaustive layout x tab-option-product enumeration with lexer-masked whitespace oracle", "3/C17")
+chk("C18", "model_checking",
+    "Stateless bounded-exhaustive exploration on the real binary: every statement shape of G_stmt (depth 1 quick / depth 2 thorough) in K&R "
+    "and Allman rendering as C, C++ and Java, every statement on its own line, x original indentation: 6 uniform indents, EVERY 1-deviation "
+    "(each line x each of 6 indents; thorough: every 2-deviation on small shapes), a comment line with odd indentation before each statement "
+    "in turn - 33 000 functions (quick), 30 per file - x indent_columns x indent_with_tabs x output_tab_size (quick {2,3,4,8} x {0,2} x {4,8}; "
+    "thorough 1..16 x 0..2 x {2,4,8}). Oracle: with tabs expanded every function equals its canonical rendering with indent_columns columns "
+    "per nesting level (closed form incl. case labels, case-brace blocks, unbraced bodies, closing braces); differential clause (all original "
+    "layouts give the same output) under nine brace/case/label indent option variants.",
+    "closed form written from the option documentation for the default brace style; Java with indent_class=true",
+    "bounded-exhaustive program x original-layout x indent-option enumeration with closed-form column oracle", "3/C18")
+chk("C19", "model_checking",
+    "Stateless bounded-exhaustive exploration on the real binary with the guarded space-decision hook: every expression of G_expr(2) in "
+    "statement/argument/#define (thorough: + initialiser/return/condition) context, C and C++ declaration units (templates, lambdas, functor "
+    "chains, conversion operators ...), preprocessor units, C/C++/ObjC/Java skeletons, statement packs, in original and wide-gap layout x "
+    "{defaults, all sp_ add, all sp_ remove, all sp_ force} x every sp_ option the run reads at each of its four values (exhaustive over "
+    "options x values by read-set pruning); thorough adds sp x sp pairs. Oracle per pair decided by space_text() whose logged rule is a "
+    "registered iarf option: the value returned is that option's configured value (ADD may be set only where the statement exempts it), and "
+    "the gap in the output obeys it (remove: none, force: exactly one blank, add: at least one, ignore: presence as in the input).",
+    "hook reports the last rule string logged before do_space() returned; tokens paired by the independent lexer; cases with changed token streams are left to C02",
+    "bounded-exhaustive program x spacing-option enumeration with hook-attributed per-pair oracle", "3/C19")
+
 
 def main():
     commits = subprocess.run(["git", "-C", "/repo", "log", "--format=%h %s"], stdout=subprocess.PIPE, text=True).stdout.splitlines()
